@@ -208,12 +208,18 @@ func getAlignedMemoryAddress(addrs []int32, align int32) comp.AlignedAddress {
 }
 
 func (cc *cacheController) coRead(r ccReadReq) ccReadResp {
+	// A line this core holds Modified is read under its exclusive lock
+	exclusive := cc.msi.getL1State(cc.id, r.addrs) == modified
 	resp, post, sem := cc.msi.l1RLock(cc.id, r.addrs)
 	if resp.wait {
 		return ccReadResp{}
 	}
 	cc.post = post
-	cc.l1RLockSems[getL1AlignedMemoryAddress(r.addrs)] = sem
+	if exclusive {
+		cc.l1LockSems[getL1AlignedMemoryAddress(r.addrs)] = sem
+	} else {
+		cc.l1RLockSems[getL1AlignedMemoryAddress(r.addrs)] = sem
+	}
 	return cc.read.ExecuteWithCheckpoint(r, func(r ccReadReq) ccReadResp {
 		for _, pending := range resp.pendings {
 			if !pending.isDone() {
@@ -314,6 +320,7 @@ func (cc *cacheController) coReadFromL1(r ccReadReq) ccReadResp {
 		cc.post = nil
 		cc.read.Reset()
 		delete(cc.l1RLockSems, getL1AlignedMemoryAddress(r.addrs))
+		delete(cc.l1LockSems, getL1AlignedMemoryAddress(r.addrs))
 		return ccReadResp{data, true}
 	})
 }
